@@ -22,7 +22,8 @@ def me(x):
 def gen(rng):
     n = rng.choice([4, 5, 6, 8, 12, 20])
     h = rng.choice([0.1, 0.125, 0.25, 0.05])
-    x0 = rng.choice([0.0, 0.2, 1.0])
+    # abscissae left of zero and across it as well (dihedral / angle tables): the flag copy of csg_resample compares abscissae
+    x0 = rng.choice([0.0, 0.2, 1.0, -1.5, -2.0, -0.6, -3.14])
     uniform = rng.random() < 0.6
     xs = [round(x0 + i * h, 6) for i in range(n)] if uniform else None
     if xs is None:
